@@ -12,6 +12,14 @@ def pairs : Nat → List String → Option (List (Bytes × Bytes) × List String
     | _, _, _ => none
   | _, _ => none
 
+def kvPairs : Nat → List String → Option (List (Bytes × Option Bytes) × List String)
+  | 0, rest => some ([], rest)
+  | n + 1, a :: b :: rest =>
+    match hexBytes? a, (if b = "del" then some none else (hexBytes? b).map some), kvPairs n rest with
+    | some a, some b, some (l, r) => some ((a, b) :: l, r)
+    | _, _, _ => none
+  | _, _ => none
+
 def fmtCursor (s : St) : String := toString s.fs.curFile ++ " " ++ toString s.fs.curOff
 
 def afterCrash (s : St) : S × String :=
@@ -47,7 +55,7 @@ def step (st : S) (toks : List String) : S × String :=
   | "tx" :: point :: skip :: torn :: nb :: rest =>
     match nb.toNat?.bind (fun n => pairs n rest) with
     | some (blocks, nk :: rest') =>
-      match nk.toNat?.bind (fun n => pairs n rest') with
+      match nk.toNat?.bind (fun n => kvPairs n rest') with
       | some (kvs, _) =>
         let (s', dead) := commit crc32c { s with fs := { s.fs with arm := armOf point skip torn } } blocks kvs
         if dead then afterCrash s' else (some { s' with fs := { s'.fs with arm := none } }, "ok " ++ fmtCursor s')
@@ -57,6 +65,10 @@ def step (st : S) (toks : List String) : S × String :=
     let (s', dead) := flush { s with fs := { s.fs with arm := armOf point skip "0" } }
     if dead then afterCrash s' else (some { s' with fs := { s'.fs with arm := none } }, "ok")
   | ["crash"] => afterCrash s
+  | ["knob", cmax, mode] =>
+    match cmax.toNat? with
+    | some m => (some { s with db := { s.db with maxSize := m, flushAlways := mode == "always" } }, "ok")
+    | none => (st, "bad-op")
   | ["reopen"] =>
     match reopen s with
     | some s' => (some s', "ok " ++ fmtCursor s')
